@@ -66,6 +66,7 @@ class Profile:
         self.hdr_variants = False
         self.pin_origin = True          # always give file_set_number and creation_time
         self.upper_names = False        # names restricted to [A-Z0-9_-]+
+        self.shared_datasets = False    # a frame may get an extra channel re-using an earlier channel's dataset
         self.dtypes = None              # restrict channel dtypes (list of codes like 'f8'); None = all eight
         self.number_pool = None         # draw every number from this small pool (C14: equal-but-distinct values)
         self.text_pool = None
@@ -443,6 +444,23 @@ def draw_frame(draw, g, fidx, rows=None):
         if sn is not None:
             op['set'] = sn
         ch_idx.append(g.add(op))
+    if p.shared_datasets and draw(st.integers(0, 2)) == 0:
+        src = draw(st.sampled_from(ch_idx))
+        sop = g.ops[src]
+        name = draw_name(draw, p)
+        k = 0
+        while name in used_names:
+            k += 1
+            name = name + str(k)
+        used_names.add(name)
+        op = {'t': 'channel', 'name': name, 'data': sop['data'], 'data_from': src, 'attrs': {}}
+        if draw(st.booleans()):
+            cast = well_defined_cast(draw, sop['data']['dt'][1:], sop['data'])
+            if cast:
+                op['cast'] = DTYPE_NAME[cast]
+        if sop.get('set') is not None:
+            op['set'] = sop['set']
+        ch_idx.append(g.add(op))
     fop = {'t': 'frame', 'name': draw_name(draw, p), 'attrs': {
         'channels': {'v': [{'$ref': i} for i in ch_idx], 'r': 'kw'}}}
     if indexed:
@@ -608,7 +626,7 @@ def draw_origin(draw, g, first):
         op['attrs']['file_set_number'] = {'v': draw(st.integers(1, 2 ** 30 - 1)), 'r': 'kw'}
         op['attrs']['creation_time'] = {'v': draw_datetime(draw), 'r': 'kw'}
     if p.explicit_origin_refs and draw(st.integers(0, 2)) == 0:
-        op['oref'] = draw(st.integers(1, 40))
+        op['oref'] = draw(st.one_of(st.integers(1, 40), st.sampled_from([127, 128, 129, 200, 255, 256, 16383, 16384, 70000])))
     sn = g.set_for(draw, 'origin')
     if sn is not None:
         op['set'] = sn
